@@ -54,17 +54,23 @@ def check_repo_binding():
 
 
 _MOD = None
+_TIER = ['quick']
+
+
+def _guard_of(mod):
+    g = getattr(mod, 'CASE_GUARD_S', CASE_GUARD_S)
+    return g[_TIER[0]] if isinstance(g, dict) else g
 
 
 def run_guarded(mod, case) -> Result:
     signal.signal(signal.SIGALRM, _on_alarm)
-    signal.setitimer(signal.ITIMER_REAL, getattr(mod, 'CASE_GUARD_S', CASE_GUARD_S))
+    signal.setitimer(signal.ITIMER_REAL, _guard_of(mod))
     try:
         r = mod.run(case)
     except CaseTimeout:
         r = Result()
         r.n = 1
-        r.violation(case, ['case did not finish within the %ds guard (non-termination)' % getattr(mod, 'CASE_GUARD_S', CASE_GUARD_S)])
+        r.violation(case, ['case did not finish within the %ds guard (non-termination)' % _guard_of(mod)])
     except Exception as ex:  # noqa
         r = Result()
         r.n = 1
@@ -198,6 +204,7 @@ def write_replay(prop, n, tier, case, errs, obs, history):
 def replay(mod, path):
     with open(path) as f:
         rec = json.load(f)
+    _TIER[0] = rec.get('tier', 'quick')
     if hasattr(mod, 'prepare'):
         mod.prepare(rec.get('tier', 'quick'))
     world.make_base()
@@ -290,6 +297,7 @@ def main(argv=None):
     check_repo_binding()
     mod = importlib.import_module('checks.' + prop.lower())
     _MOD = mod
+    _TIER[0] = args.tier
     if args.replay:
         return replay(mod, args.replay)
 
